@@ -11,6 +11,31 @@ using vf::dy;
 typedef SoPlexBase<double> SP;
 
 static std::ofstream devnull("/dev/null");
+// records of the guarded driver hook (src/soplex.h, SOPLEX_VERIF_DRIVER_TRACE) for the optimize() call in progress
+static std::vector<long> drvTrace;
+static void optimizeTraced(SP& s)
+{
+   drvTrace.clear();
+#ifdef SCIPOPT_SOPLEX_VERIF
+   verifDriverTraceSink() = &drvTrace;
+#endif
+
+   try
+   {
+      s.optimize();
+   }
+   catch(...)
+   {
+#ifdef SCIPOPT_SOPLEX_VERIF
+      verifDriverTraceSink() = nullptr;
+#endif
+      throw;
+   }
+
+#ifdef SCIPOPT_SOPLEX_VERIF
+   verifDriverTraceSink() = nullptr;
+#endif
+}
 static void quiet(SP& s)
 {
    for(int v = SPxOut::ERROR; v <= SPxOut::INFO3; v++)
@@ -202,6 +227,15 @@ static void report(SP& s, const char* tag, const std::string& id)
       printf(",");
    }
 
+   // the solve driver: the parameters it reads, its control trace, and the flags it leaves
+   printf(" drvp=%d,%d,%d,%d,%d drvf=%d,%d,%d,%d drv=", s.intParam(SP::SIMPLIFIER) != SP::SIMPLIFIER_OFF ? 1 : 0,
+          s.intParam(SP::SCALER) != SP::SCALER_OFF ? 1 : 0, s.boolParam(SP::PERSISTENTSCALING) ? 1 : 0, s.boolParam(SP::ENSURERAY) ? 1 : 0,
+          (s.realParam(SP::OBJLIMIT_LOWER) == -s.realParam(SP::INFTY) && s.realParam(SP::OBJLIMIT_UPPER) == s.realParam(SP::INFTY)) ? 0 : 1,
+          (int)st, s.hasBasis() ? 1 : 0, s.hasPrimalRay() ? 1 : 0, s.hasDualFarkas() ? 1 : 0);
+
+   for(size_t k = 0; k + 4 < drvTrace.size(); k += 5)
+      printf("%ld,%ld,%ld,%ld,%ld;", drvTrace[k], drvTrace[k + 1], drvTrace[k + 2], drvTrace[k + 3], drvTrace[k + 4]);
+
    printf("\n");
    fflush(stdout);
 }
@@ -300,6 +334,41 @@ int main(int argc, char** argv)
             printf("EXACT %s status=EXCEPTION\n", id.c_str());
          }
       }
+      else if(t[0] == "HIST")
+      {
+         // HIST <histid> step ...   one solver object, several solves of the SAME LP: a step is k=v (parameter change),
+         // OPT (optimize and report as HRUN <histid>.<n>) or CLB (clearBasis)
+         try
+         {
+            SP s;
+            quiet(s);
+            bool ok = true, loaded = false;
+            int nopt = 0;
+
+            for(size_t k = 2; k < t.size(); k++)
+            {
+               if(t[k] == "OPT")
+               {
+                  if(!loaded)
+                  {
+                     load(s, L);
+                     loaded = true;
+                  }
+
+                  optimizeTraced(s);
+                  report(s, "HRUN", t[1] + "." + std::to_string(nopt++) + (ok ? "" : "!badparam"));
+               }
+               else if(t[k] == "CLB")
+                  s.clearBasis();
+               else
+                  ok = setParam(s, t[k]) && ok;
+            }
+         }
+         catch(const std::exception& e)
+         {
+            printf("HRUN %s status=EXCEPTION what=%s\n", t[1].c_str(), vf::hex(e.what()).c_str());
+         }
+      }
       else if(t[0] == "RUN")
       {
          // RUN <runid> k=v ...
@@ -313,7 +382,7 @@ int main(int argc, char** argv)
                ok = setParam(s, t[k]) && ok;
 
             load(s, L);
-            s.optimize();
+            optimizeTraced(s);
             report(s, "RUN", t[1] + (ok ? "" : "!badparam"));
          }
          catch(const std::exception& e)
